@@ -163,6 +163,9 @@ func (w *worker) reproducesMemo(st *stats, c caseDef, path, kind string) bool {
 	if kind == "paths-disagree" {
 		a, b := w.evalPath(c, "standalone"), w.evalPath(c, "server")
 		v = a.Result != b.Result
+	} else if kind == "paths-disagree-size" {
+		a, b := w.evalPath(c, "standalone"), w.evalPath(c, "server")
+		v = a.Result == "ok" && b.Result == "ok" && sizeDiffers(c.T, a, b)
 	} else {
 		v = w.reproduces(c, path, kind)
 	}
@@ -391,9 +394,19 @@ func main() {
 			sub := w.blameSearch(st, c, canon, "both", "paths-disagree")
 			report(fmt.Sprintf("paths-disagree:%s:standalone-%s-server-%s:%s", t.Name, a.Result, b.Result, sub),
 				fmt.Sprintf("%s :: standalone: %s %s / server: %s %s", c.id("both"), a.Result, a.Err, b.Result, b.Err), c.replay("both"))
-		} else if a.Result == "ok" && b.Result == "ok" && (a.Hash != b.Hash || a.Leaf != b.Leaf) {
+		} else if a.Result == "ok" && b.Result == "ok" && len(a.Viols) == 0 && len(b.Viols) == 0 && (c.Key.Name == keyRSA.Name || c.Key.Name == keyPGPOnly.Name) && sizeDiffers(t, a, b) {
+			// with an RSA key both pipelines must produce artifacts of the same size (up to the
+			// occasional shorter MPI in OpenPGP packets): a flag, digest or key that one pipeline
+			// drops shows here. Believed only if it repeats.
+			a2, b2 := w.evalPath(c, "standalone"), w.evalPath(c, "server")
+			if a2.Result == "ok" && b2.Result == "ok" && sizeDiffers(t, a2, b2) {
+				sub := w.blameSearch(st, c, canon, "both", "paths-disagree-size")
+				report(fmt.Sprintf("paths-disagree:%s:output-size:%s", t.Name, sub),
+					fmt.Sprintf("%s :: standalone output %v, server output %v (sizes per part)", c.id("both"), a.Parts, b.Parts), c.replay("both"))
+			}
+		} else if a.Result == "ok" && b.Result == "ok" && (a.Hash != b.Hash || a.Leaf != b.Leaf || a.Info != b.Info) {
 			report(fmt.Sprintf("paths-disagree:%s:signature-summary", t.Name),
-				fmt.Sprintf("%s :: standalone leaf=%s hash=%s, server leaf=%s hash=%s", c.id("both"), a.Leaf, hname(a.Hash), b.Leaf, hname(b.Hash)), c.replay("both"))
+				fmt.Sprintf("%s :: standalone leaf=%s hash=%s info=%q, server leaf=%s hash=%s info=%q", c.id("both"), a.Leaf, hname(a.Hash), a.Info, b.Leaf, hname(b.Hash), b.Info), c.replay("both"))
 		}
 		if idx%997 == 1 && a.Result != "skipped" {
 			run.Sample(map[string]any{"case": c.replay("standalone"), "standalone": a.Result, "server": b.Result, "error": a.Err})
@@ -409,8 +422,14 @@ func main() {
 		for _, d := range defs {
 			names = append(names, fmt.Sprintf("%s(%s,default=%q)", d.Name, d.Type, d.Def))
 		}
+		if names == nil {
+			names = []string{}
+		}
 		flagNames[t.Name] = names
-		shapes := t.Shapes(thorough)
+		// the shape sweep of the quick tier already uses the full (thorough) shape
+		// families: it costs about a minute and shape-dependent defects are the
+		// ones a handful of fixtures cannot reach
+		shapes := t.Shapes(true)
 		strictN := 0
 		for _, s := range shapes {
 			if s.Strict {
@@ -436,6 +455,14 @@ func main() {
 			for i, sh := range shapes {
 				for _, ps := range presignModes {
 					runCase(t, canon, mk(sh, i, ps, keyRSA, crypto.SHA256, url.Values{}, "inplace"))
+				}
+			}
+			// (D) every shape x each single non-default flag value x {rsaA, SHA-256}, in place
+			for i, sh := range shapes {
+				for _, fl := range flagCombos(t, defs, sh, w.aux, unenumerated) {
+					if len(fl) == 1 {
+						runCase(t, canon, mk(sh, i, false, keyRSA, crypto.SHA256, fl, "inplace"))
+					}
 				}
 			}
 			// (B) canonical shape x keys x digests x every flag assignment, separate output
@@ -516,6 +543,31 @@ func main() {
 	finish()
 }
 
+// sizeDiffers compares the size fingerprints of the two pipelines' artifacts
+// (per ZIP member for ZIP-based types, whole file otherwise).
+func sizeDiffers(t *typeDef, a, b obs) bool {
+	if t.Name == "xar" {
+		return false // the rewritten TOC is zlib-compressed: its size is not a function of the inputs
+	}
+	tol := int64(3)
+	if t.PGP {
+		tol = 8
+	}
+	if len(a.Parts) != len(b.Parts) {
+		return true
+	}
+	for k, va := range a.Parts {
+		vb, ok := b.Parts[k]
+		if !ok {
+			return true
+		}
+		if d := va - vb; d > tol || d < -tol {
+			return true
+		}
+	}
+	return false
+}
+
 func firstLines(s string, n int) string {
 	lines := strings.Split(s, "\n")
 	if len(lines) > n {
@@ -525,7 +577,7 @@ func firstLines(s string, n int) string {
 }
 
 func finish() {
-	tier := "quick: per type (A) every generated/fixture shape and its relic-signed twin x {rsaA, SHA-256, default flags} in place, (B) canonical shape x keys x all six digests x the full product of every registered signer flag's alphabet with a separate output file, (C) canonical shape x {accepted, refused-by-key, refused-by-digest} x {in place, separate output, pre-existing output}"
+	tier := "quick: per type (A) every generated/fixture shape of the full shape families and its relic-signed twin x {rsaA, SHA-256, default flags} in place, (D) every shape x every single non-default flag value x {rsaA, SHA-256} in place, (B) canonical shape x keys x all six digests x the full product of every registered signer flag's alphabet with a separate output file, (C) canonical shape x {accepted, refused-by-key, refused-by-digest} x {in place, separate output, pre-existing output}"
 	if run.Thorough() {
 		tier = "thorough: cheap types (pe-coff, cab, cat, ps, appmanifest, jar, xap, deb, pgp): every shape x keys x all six digests x full flag product (output mode cycling through in place / separate / pre-existing) plus the relic-signed twin of every shape x keys x digests; other types: same with digests {SHA-256, SHA-384} on non-canonical shapes and all six on the canonical shape; plus (C) as in quick"
 	}
